@@ -83,8 +83,15 @@ def roundtrip(orc, model, qmode, texts):
 
 # ---------------------------------------------------------------- (A) untyped trees
 def fails_tree(orc, t, model=None, qmode='exprp'):
-    v = roundtrip(orc, model or G.ENV_XML, qmode, [G.render(t, 'min')])[0]
-    return None if v[0] in ('ok', 'skip') else v
+    # both spellings: the fully parenthesised text gives the abstract tree whatever the parser's precedence table says, so printing it puts the
+    # printer's own table to the test (it must agree with the parser's, not with this harness's)
+    texts = [G.render(t, 'min')]
+    if qmode == 'exprp' and G.render(t, 'full') != texts[0]:
+        texts.append(G.render(t, 'full'))
+    for v in roundtrip(orc, model or G.ENV_XML, qmode, texts):
+        if v[0] not in ('ok', 'skip'):
+            return v
+    return None
 
 
 def localise_tree(orc, t, model=None, qmode='exprp'):
@@ -144,7 +151,13 @@ def test_tree(chk, st, orc, t, label):
     st.case('tree:' + txt, nontrivial=G.count_ops(t) >= 2, classes=['tree', label] + ['has:' + k for k in sorted(G.kinds_in(t))][:5],
             sample={'input': txt})
     if v[0] == 'ok':
-        return None
+        full = G.render(t, 'full')
+        if full == txt:
+            return None
+        v2 = roundtrip(orc, G.ENV_XML, 'exprp', [full])[0]
+        st.case('tree-full:' + full, nontrivial=G.count_ops(t) >= 2, classes=['tree', 'fully-parenthesised'], sample={'input': full})
+        if v2[0] in ('ok', 'skip'):
+            return None
     d, f, small = localise_tree(orc, t)
     if d is None:
         st.inconclusive += 1
